@@ -190,7 +190,14 @@ def run_generator(ctx, cfg):
     r.cls_ok = type(gen) is cls
     r.jds = sym_jds(ctx, cfg, spec)
     r.jds_in = list(r.jds)
+    if cfg.get("history") and cfg.get("first_identity"):
+        # the outcome of the first call's shuffles is irrelevant for what is checked about the second call: keep it fixed
+        def identity(c, orig, ps, rec):
+            for j, p in enumerate(ps):
+                c.assume(p == j)
+        ctx.shuffle_policy = identity
     r.out = gen.random_clustered_graph(r.jds)
+    ctx.shuffle_policy = None
     if cfg.get("history"):
         # a second call on the SAME generator object with an independent symbolic sequence: everything recorded is reset
         # so that the obligations are stated about the second call only
